@@ -28,7 +28,7 @@ type zzLimBody struct{ r *strings.Reader }
 func (b zzLimBody) Read(p []byte) (int, error) { return b.r.Read(p) }
 func (b zzLimBody) Close() error               { return nil }
 
-var zzLimK, zzLimBatch, zzLimDim, zzLimItemDim int
+var zzLimK, zzLimBatch, zzLimDim, zzLimItemDim, zzLimItemAt int
 
 // ZZDecodeLimits replaces (*json.Decoder).Decode (struct decoding needs reflection): a syntactically valid body
 // whose size-carrying fields hold the harness's symbolic values.
@@ -40,8 +40,11 @@ func ZZDecodeLimits(d *json.Decoder, v any) error {
 	case *BatchAddVectorsRequest:
 		r.IndexName = "i0"
 		r.Vectors = make([]types.BatchObject, zzLimBatch)
-		if zzLimBatch > 0 {
-			r.Vectors[0] = types.BatchObject{Id: "a", Vector: make([]float32, zzLimItemDim)}
+		if zzLimBatch > 0 && zzLimBatch <= 4 {
+			for i := range r.Vectors {
+				r.Vectors[i] = types.BatchObject{Id: "a", Vector: []float32{1}}
+			}
+			r.Vectors[zzLimItemAt] = types.BatchObject{Id: "b", Vector: make([]float32, zzLimItemDim)}
 		}
 	case *VectorSearchRequest:
 		r.IndexName, r.K, r.QueryVector = "i0", zzLimK, []float32{1}
@@ -62,12 +65,14 @@ func ZZVerifC19Limits() {
 	s := &Server{}
 	rec := &zzLimRec{hdr: http.Header{}}
 	req := &http.Request{Method: "POST", URL: &url.URL{Path: "/x"}, Header: http.Header{}, Body: zzLimBody{strings.NewReader(`{}`)}}
-	zzLimK, zzLimBatch, zzLimDim, zzLimItemDim = 1, 1, 1, 1
+	zzLimK, zzLimBatch, zzLimDim, zzLimItemDim, zzLimItemAt = 1, 1, 1, 1, 0
 	switch rt.IntRange("handler", 0, 8) {
 	case 7, 8:
 		// one item of a (small) batch carries an oversized vector
 		zzLimItemDim = rt.Int("itemDim")
 		rt.Assume(rt.And(zzLimItemDim > maxVectorDim, zzLimItemDim <= 1<<30))
+		zzLimBatch = 3
+		zzLimItemAt = rt.IntRange("oversizedItem", 0, 2) // the oversized item may be any item of the batch
 		if rt.IntRange("which", 0, 1) == 0 {
 			s.handleVectorAddBatch(rec, req)
 		} else {
